@@ -505,6 +505,8 @@ func CheckC07(e *Env) int {
 	scaling(e, rep)
 	// an erroneous set below a lattice of set inclusions: the report must not repeat per path
 	errorLattices(e, rep)
+	// interface bindings that only lead to each other
+	bindLoops(e, rep)
 	rep.Assumptions = []string{"termination is claimed only as: every explored input finished within the hook step cap (400*(n+1)^2 loop iterations per activation) and within the linear budget 16*(V+E)+64 on the scaling families"}
 	return rep.Finish(t0)
 }
@@ -847,5 +849,83 @@ func errorLattices(e *Env, rep *Report) {
 			continue
 		}
 		rep.Held(name)
+	}
+}
+
+// bindLoops: sets in which interface bindings lead only to other bindings and never reach a
+// provided type - a loop of two or three, a loop with a tail leading into it, two tails, a
+// binding chain to nowhere. No such set can be accepted; wire has to say so and terminate
+// (decided on the hook step cap and the CPU-time cap of the wire process, never on wall-clock
+// time).
+func bindLoops(e *Env, rep *Report) {
+	shapes := []struct {
+		name  string
+		n     int
+		edges [][2]int // Bind(I<a>, I<b>)
+	}{
+		{"loop-of-two", 2, [][2]int{{0, 1}, {1, 0}}},
+		{"loop-of-three", 3, [][2]int{{0, 1}, {1, 2}, {2, 0}}},
+		{"tail-into-loop-of-two", 3, [][2]int{{0, 1}, {1, 2}, {2, 1}}},
+		{"tail-into-loop-of-two-listed-last", 3, [][2]int{{1, 2}, {2, 1}, {0, 1}}},
+		{"long-tail-into-loop-of-three", 6, [][2]int{{0, 1}, {1, 2}, {2, 3}, {3, 4}, {4, 5}, {5, 3}}},
+		{"two-tails-into-one-loop", 4, [][2]int{{0, 2}, {1, 2}, {2, 3}, {3, 2}}},
+		{"tail-to-nowhere", 3, [][2]int{{0, 1}, {1, 2}}},
+	}
+	type job struct {
+		shape int
+		cmd   string
+		used  bool
+	}
+	var jobs []job
+	for si := range shapes {
+		jobs = append(jobs, job{si, "check", false}, job{si, "check", true}, job{si, "gen", true})
+	}
+	res := make([]*CmdResult, len(jobs))
+	progs := make([]*Program, len(jobs))
+	e.ParallelDo(len(jobs), func(i int) {
+		j := jobs[i]
+		sh := shapes[j.shape]
+		var src strings.Builder
+		src.WriteString("package app\n\nimport \"github.com/google/wire\"\n\ntype A struct{}\n\nfunc NewA() A { return A{} }\n\n")
+		for k := 0; k < sh.n; k++ {
+			fmt.Fprintf(&src, "type I%d interface{ M() }\n", k)
+		}
+		src.WriteString("\nvar Loop = wire.NewSet(\n")
+		for _, ed := range sh.edges {
+			fmt.Fprintf(&src, "\twire.Bind(new(I%d), new(I%d)),\n", ed[0], ed[1])
+		}
+		src.WriteString(")\n")
+		p := &Program{ID: fmt.Sprintf("bl_%s_%s_%v", sh.name, j.cmd, j.used), Module: ModulePath, Extra: map[string]string{}, Feat: map[string]string{}, RawDriver: true}
+		p.Pkgs = []*Pkg{{Name: "app", Dir: "app"}}
+		p.Extra["0/sets.go"] = src.String()
+		inj := "func Init() A {\n\tpanic(wire.Build(NewA))\n}\n"
+		if j.used {
+			inj = "func Init() I0 {\n\tpanic(wire.Build(Loop))\n}\n"
+		}
+		p.Extra["0/wire.go"] = "//go:build wireinject\n// +build wireinject\n\npackage app\n\nimport \"github.com/google/wire\"\n\n" + inj
+		progs[i] = p
+		r, _, _ := runSolo(e, p, j.cmd)
+		res[i] = r
+	})
+	for i, j := range jobs {
+		sh := shapes[j.shape]
+		name := fmt.Sprintf("bind-loop/%s/%s/used=%v", sh.name, j.cmd, j.used)
+		fam := "bind-loop/" + sh.name
+		r := res[i]
+		switch {
+		case strings.Contains(r.Stderr, "VERIF-STEP-CAP"):
+			rep.Violate(progs[i].ID, Issue{Prop: "C07", Clause: "no termination within the step / CPU-time budget on " + fam, Witness: tail(r.Stderr, 500), Sig: "C07:stepcap:" + fam}, progs[i].Files(false), nil)
+		case r.TimedOut:
+			rep.Incon = append(rep.Incon, "watchdog on "+name)
+		case r.Crashed():
+			rep.Violate(progs[i].ID, Issue{Prop: "C07", Clause: "crash on " + name, Witness: tail(r.Stderr, 2000), Sig: "C07:crash:" + fam}, progs[i].Files(false), nil)
+		case r.Exit == 0:
+			rep.Violate(progs[i].ID, Issue{Prop: "C07", Clause: "bindings that never reach a provided type were accepted: " + name, Witness: tail(r.Stderr, 500), Sig: "C07:accepted:" + fam}, progs[i].Files(false), nil)
+		case !strings.Contains(r.Stderr, "wire: "):
+			rep.Violate(progs[i].ID, Issue{Prop: "C07", Clause: "rejected without a diagnostic: " + name, Witness: tail(r.Stderr, 500), Sig: "C07:silent:" + fam}, progs[i].Files(false), nil)
+		default:
+			rep.Count("bind_loops_rejected", 1)
+			rep.Held(name)
+		}
 	}
 }
